@@ -127,7 +127,7 @@ func respell(t *rapid.T) (*gen.Style, []string, bool) {
 	st := gen.DefaultStyle()
 	var names []string
 	permute := false
-	all := []string{"newline", "indent", "comments", "multiline", "spread", "quote-names", "trailing-comma", "blank-lines", "rule-order", "space-before-colon", "empty-annotations", "mixed-annotations", "enum-item-notes", "note-on-next-line", "join-lines", "notes", "stray-notes"}
+	all := []string{"newline", "indent", "comments", "multiline", "spread", "quote-names", "trailing-comma", "blank-lines", "rule-order", "space-before-colon", "empty-annotations", "mixed-annotations", "enum-item-notes", "note-on-next-line", "join-lines", "notes", "stray-notes", "blank-in-empty", "prop-after-array", "name-gap", "block-in-rules"}
 	n := rapid.IntRange(1, 5).Draw(t, "nrewrites")
 	for _, r := range rapid.Permutation(all).Draw(t, "rewrites")[:n] {
 		names = append(names, r)
@@ -166,6 +166,14 @@ func respell(t *rapid.T) (*gen.Style, []string, bool) {
 			st.JoinLines = true // several properties per line, one-line containers (no effect together with comments)
 		case "note-on-next-line":
 			st.NoteNextLine = true
+		case "blank-in-empty":
+			st.BlankInEmpty = rapid.IntRange(1, 2).Draw(t, "blankInEmpty") // [ ] and { } for empty containers
+		case "prop-after-array":
+			st.PropAfterArray = true // "], "b": ..." instead of a line break after an array value
+		case "name-gap":
+			st.NameGap = rapid.IntRange(1, 2).Draw(t, "nameGap") // blanks (also tabs) between a rule name and its colon
+		case "block-in-rules":
+			st.BlockInRules = rapid.IntRange(1, 3).Draw(t, "blockInRules") // ### c ### between the tokens of a rule object
 		case "stray-notes":
 			st.StrayNotes = rapid.IntRange(1, 3).Draw(t, "strayNotes") // notes on lines where no value starts
 		case "empty-annotations":
